@@ -93,9 +93,20 @@ def check(ctx):
 
 # ---------------------------------------------------------------------------------------- bounded-by-construction terms
 
+NARROW_MAX = {"bool": 1, "u8": 255, "u16": 65535, "u32": (1 << 32) - 1}
+
+
 def max_value(F, b, t, block, depth=0):
     """Upper bound (int) of term t established by construction or by a dominating fact, or None."""
-    t = strip_casts(t)
+    # a cast to a narrow unsigned type bounds the value whatever went in (`x as u8`, `u8::try_from`-free byte extraction)
+    tyb = None
+    while isinstance(t, tuple) and t and t[0] == "cast":
+        if t[2] in NARROW_MAX:
+            tyb = NARROW_MAX[t[2]] if tyb is None else min(tyb, NARROW_MAX[t[2]])
+        t = t[1]
+    if tyb is not None:
+        inner = max_value(F, b, t, block, depth + 1) if depth <= 10 else None
+        return tyb if inner is None else min(tyb, inner)
     if depth > 10:
         return None
     if t[0] == "const" and isinstance(t[1], int):
